@@ -355,8 +355,11 @@ class Crazyflie():
                             logger.debug('Found new longest match %s', match)
                             longest_match = match
         if len(longest_match) > 0:
-            self._answer_patterns[longest_match].cancel()
-            del self._answer_patterns[longest_match]
+            # The link can be closed (or lost) by another thread at any time,
+            # the pattern is then already gone
+            timer = self._answer_patterns.pop(longest_match, None)
+            if timer is not None:
+                timer.cancel()
 
     def send_packet(self, pk, expected_reply=(), resend=False, timeout=0.2,
                     _retry_timer=None):
